@@ -54,8 +54,32 @@ def check(ctx):
     ml = '4' if thorough else '3'
     _api(ctx, 'native/api-text-escaping', ['api', 'strings', ml], 'every text of length <= %s over {& < > " \' a ; # x 1 blank l t a-umlaut} without leading/trailing blank, as element content and as attribute value, escaped independently of the library' % ml,
          'the loaded value is the text (strict and lenient, no warning); the serialized file reloads to the same value and re-serializes byte-identically', 'roundtrip1')
+    # directed: which whitespace is removed on loading (expectation known by construction)
+    b = ctx.native()
+    rc, out, err, secs = run([b, 'api', 'whitespace'], timeout=600)
+    ctx.t('native-enum', secs)
+    lines = out.strip().splitlines()
+    if not lines or lines[-1] != 'DONE':
+        ctx.undecided.append('native/api-whitespace: no result (rc=%s) %s' % (rc, (out + err)[-300:]))
+    else:
+        what = dict(preserve='a string type the schema marks xml:space="preserve" (SD): 6 x 6 paddings around "x  y" and one entity-encoded text; the value in the model is the text of the document, padding included',
+                    plain='an ordinary string (ISSUED-BY): 6 x 6 paddings around "a  b"; only the padding may be removed, the blanks inside stay',
+                    mixed='mixed content (L-2): "hello{w1}<TT>w</TT>{w2}world" for 3 outer paddings x 4 x 4 gaps; the whitespace between a word and an inline element is part of the text')
+        for l in lines[:-1]:
+            kind, _, rest = l.partition(' ')
+            cls, _, rest = rest.partition(' ')
+            name = 'native/api-whitespace/%s' % cls
+            bound = what.get(cls, cls) + '; strict and lenient, and again after serialize + load'
+            if kind == 'OK':
+                ctx.add(Obligation(ctx.prop, name, 'native-eval', 'bounded', 'discharged', seconds=secs, bound=bound, detail='the model holds what the document holds [%s]' % rest))
+            else:
+                msg, _, dochex = rest.partition(' :: document ')
+                ob = ctx.add(Obligation(ctx.prop, name, 'native-eval', 'bounded', 'failed', seconds=secs, bound=bound, detail=msg[:1000]))
+                ob.witness = dict(input_hex=dochex.strip(), input_text=bytes.fromhex(dochex.strip()).decode('utf-8', 'replace') if dochex.strip() else None, observed=msg[:600],
+                                  via='public API: load_buffer / character_data / content / serialize', replay=['api', 'whitespace1', cls])
+                ctx._record_violation(ob)
     return ctx.finish(
         explanation='Of the four mechanisms the property names, one is pure: the text escaping of the writer and the decoding of the parser. Verus proves on the real text of escape_text and unescape_string that they compute esc / unesc (specifications over the character view; well-formed text is decoded in both modes without a warning; strict mode rejects every malformed entity), and the property lemma unesc(esc(s)) == s for texts of every length -- so decoding what the writer escaped gives the value back and re-escaping gives byte-identical text. The tokenizer (exact slices for character data, end tags and comments) and trim_byte_string (only ASCII whitespace removed) are the units of C02. Attribute splitting vs the attribute writer, layout rules per content type, comment placement and header emission are parse_element / serialize_internal over the element graph (Arc<RwLock>; Kani ICE, DESIGN F3) and are NOT under contract: for them the statement is run through the public API as a bounded round trip (corpus + 14 000 documents generated from the specification + all short texts with special characters).',
-        checker_cmd='verus generated/{escape,lexer,trim}.rs; vxnative api roundtrip <corpus>; vxnative api roundtripgen N; vxnative api strings L',
+        checker_cmd='verus generated/{escape,lexer,trim}.rs; vxnative api roundtrip <corpus>; vxnative api roundtripgen N; vxnative api strings L; vxnative api whitespace',
         trusted_base=['Verus 0.2026.09.13 + Z3', 'the str API read over the char view: find / starts_with / slicing / push_str as leaves; byte offsets of the real code coincide with character positions because every index constant skips ASCII only (assumed)',
                       'leaves u32::from_str(_radix), char::from_u32; the funnel call is a leaf whose contract unit lexer proves', 'rustc (bounded API round trips)'])
